@@ -181,7 +181,9 @@ def run_property(prop, tier="quick", seed=0, out=sys.stdout):
                         "helpers_inlined_into_callers": sorted(set("%s <- %s" % (c_, h_) for c_, h_ in facts.spliced)),
                         # locals of a struct type the reference table does not know, taken apart into one local per field
                         "struct_locals_split_into_fields": sorted(set("%s: %s (%s)" % t_ for t_ in facts.split_locals)),
-                        "loops_over_array_literals_unrolled": sorted(set("%s: %d elements" % t_ for t_ in facts.unrolled))}
+                        "loops_over_array_literals_unrolled": sorted(set("%s: %d elements" % t_ for t_ in facts.unrolled)),
+                        # new named locals joined from variant constructions and matched afterwards: each construction sent straight to its arm
+                        "joins_of_new_enum_locals_threaded": sorted(set("%s: %s (%d constructions)" % t_ for t_ in facts.threaded))}
         ctx = Ctx(facts, cfg)
         for r in rules:
             if r.configs is not None and cfg not in r.configs:
@@ -190,7 +192,9 @@ def run_property(prop, tier="quick", seed=0, out=sys.stdout):
             only = r.also_only.get(prop) if r.prop != prop else None
             try:
                 for ob in r.fn(ctx):
-                    if only is not None and not re.search(r"(?<![a-z])%s::" % only, ob.key):
+                    # ("C02", "sync") keeps the obligations about sync::..., ("C02", "!unsync") everything but those about unsync::... (code shared by both
+                    # flavours - the handles - serves the sync arena too)
+                    if only is not None and (bool(re.search(r"(?<![a-z])%s::" % only.lstrip("!"), ob.key)) == only.startswith("!")):
                         continue
                     ob.rule = r
                     ob.config = cfg
